@@ -41,6 +41,24 @@ CLAIMED = {
         text="Spec/Asprs.lean holds field tables typed from the specification only (record formats 0-10 with offsets/widths/kinds, bit assignments, header fields per version, VLR/EVLR headers, the 192-byte extra-bytes descriptor, type ids 1-30, option bits, global-encoding bits). Theorems: laspy's generated numpy layout, sizes (20..67), dimension order/types, masks, version table, header sizes and the header model's field widths are equal to them; a decoder over the specification table inverts laspy's record layout for every field content and consumes exactly one record length, and conversely; two's complement is a bijection on each signed range; every combination of sub-field values packs to a byte from which the specification's bit positions recover it (all 256 bytes). Correspondence: laspy assigns through named dimensions and writes, the Lean spec decoder and a separate Python struct decoder read; an encoder over the spec tables writes and laspy presents the same values.",
         note="Trusted: the hand transcription of the specification (an error there shows as a failed equality unless laspy has the same error); for LAS 1.4 laspy writes the legacy count fields as 0 (allowed when legacy compatibility is not kept) and the spec decoder reads the 1.4 fields. Float fields are compared as bit patterns.",
         design="6 (C02)"),
+    "C01": dict(
+        engine="fileio",
+        technique="Lean 4 proof: structure theorem for writer sessions (final header ++ records ++ EVLRs) composed with the header/VLR round-trip theorems to give readFile (writeFile img) = img for all record contents; byte-exact correspondence with LasData.write / laspy.read",
+        text="Theorems for every header in the legal domain, every list of records of the header's record length (arbitrary bytes: every bit pattern of every field, NaN payloads, extremes, 0 and 1 points) and every EVLR list: the one-shot session succeeds, its output is exactly final header ++ records ++ EVLRs, and reading it returns byte-identical records, the same count, version, format byte, record length, scale/offset bit patterns, strings, GUID and VLRs; the writer never alters the caller's header fields. The model is compared byte for byte with the real write (BytesIO, path, buffered and unbuffered files) and its readFile with laspy.read on all 24 version/format pairs with typed extra dimensions; write-after-read idempotence and purity are checked on the implementation (snapshot) — the idempotence theorem is not yet proved (partial).",
+        note="Trusted: Lean kernel; numpy exposes the structured array's memory as the record image (memoryview/frombuffer); hardware-double evaluation of the extrema in the driver; creation date set explicitly. Scalings are finite (a NaN scale makes the writer take its rescale path because NaN != NaN; outside the quantifier, recorded in DESIGN.md).",
+        design="6 (C01)"),
+    "C03": dict(
+        engine="fileio",
+        technique="Lean 4 proof from the session structure theorem: count, histogram (induction), layout arithmetic and EVLR pointer for every chunking; extrema under explicit float laws; invariant for in-memory histories; correspondence with recomputed numpy statistics",
+        text="Theorems for every session (any partition into chunks, with or without EVLRs): the file reads back with point count = number of stored records, per-return counts = the histogram of return numbers 1..15 (0 counted nowhere; five bins survive before 1.4 by canon), file length = offset + count x record length + EVLR bytes, EVLR pointer/number exact; extrema = rendered integer extremum per axis for a non-empty cloud and zero for an empty one, under the stated FloatLaws; in memory, after any history of points assignment / indexing / update_header the statistics are those of the records held and equal what a written file carries. Correspondence: one-shot and chunked files and in-memory histories against statistics recomputed with plain numpy and against the model's hardware-double evaluation.",
+        note="Trusted: FloatLaws (monotone X*s+o for finite positive s, strict weak order without NaN, reset values bound every rendered value) as explicit hypotheses of the extrema theorems, validated by correspondence; numpy index resolution. The appender's statistics belong to C06.",
+        design="6 (C03)"),
+    "C04": dict(
+        engine="fileio",
+        technique="Lean 4 proof by induction over the chunk list (store = header ++ bytes so far, statistics = fold of grow) plus the float-law lemma that folded extrema equal the extrema of the concatenation; byte comparison of real chunked and one-shot files",
+        text="Theorem C04_bytes: for every header in the legal domain, every partition of the record sequence into write_points calls (any sizes, empty chunks, a single chunk) and every EVLR list, the session's bytes equal the one-shot session's bytes; empty chunks are no-ops in every state; after write_evlrs (non-empty) or close a non-empty chunk is refused, as are points of another format/record length, without producing a new state. Correspondence: all compositions of small n plus seeded partitions on the real LasWriter vs LasData.write vs the model; late writes and foreign formats must raise and leave getvalue() unchanged. Compressed equality is part of C14.",
+        note="Trusted: FloatLaws hypothesis for the extrema (as C03); BytesIO write semantics (overwrite at position 0 keeps the tail).",
+        design="6 (C04)"),
 }
 NOT_YET = "check not built yet in this round (planned per DESIGN.md section 10); not claimed until its theorems build and its check is quiet"
 
@@ -75,6 +93,7 @@ manifest = {
     },
     "engines": [
         {"name": "codec", "path": "harness/props/", "serves_properties": ["C07", "C08", "C02"], "kind_free_text": "Lean byte-level codecs (little-endian ints, fixed-width strings, dates, VLR framing, header) with round-trip theorems + byte-exact correspondence with the real serialisers"},
+        {"name": "fileio", "path": "harness/fileio.py", "serves_properties": ["C01", "C03", "C04", "C05", "C06", "C19"], "kind_free_text": "Lean writer/reader/appender session model (Model/FileIO.lean) with the session structure theorem; real LasWriter/LasReader/LasAppender sessions compared byte for byte through the driver"},
         {"name": "bits", "path": "harness/props/", "serves_properties": ["C20", "C09", "C10"], "kind_free_text": "Lean theorems over generated tables/functions + exhaustive translation validation and correspondence through lean/Driver.lean"},
     ],
     "checks": checks,
